@@ -3,13 +3,53 @@ package props
 import (
 	"fmt"
 	"go/ast"
+	"go/token"
+	"go/types"
 	"strings"
 
 	"verif/sa/core"
 )
 
+// nthParam returns the object of the i-th parameter of f (nil if unnamed or absent).
+func nthParam(f *core.Func, i int) types.Object {
+	k := 0
+	for _, fl := range f.Type.Params.List {
+		if len(fl.Names) == 0 {
+			k++
+			continue
+		}
+		for _, n := range fl.Names {
+			if k == i {
+				return f.Info().Defs[n]
+			}
+			k++
+		}
+	}
+	return nil
+}
+
+// reachableAvoiding reports a path from the entry of g to p that takes no edge
+// carrying a condFact for which pred holds.
+func reachableAvoiding(g *core.Graph, ef edgeFacts, p core.Point, pred func(condFact) bool) ([]string, bool) {
+	tr, found := g.Search(core.Query{Goal: core.At(p), AvoidEdge: ef.avoid(pred)})
+	return g.Trail(tr), found
+}
+
+func factIs(id, val string) func(condFact) bool {
+	return func(f condFact) bool { return f.id == id && f.eq && f.val == val }
+}
+
+// callOn reports whether e (locals resolved) is a call of the method/function with the given callee id, and returns it.
+func callOn(f *core.Func, e ast.Expr, id string) (*ast.CallExpr, bool) {
+	call, ok := throughLocals(f, e).(*ast.CallExpr)
+	if !ok || f.CalleeID(call) != id {
+		return nil, false
+	}
+	return call, true
+}
+
 func c07(c *core.Check) {
-	c.Explain = "Decides structural necessary conditions of C07 on the VM: (R0) the strptime memo is transparent (same rule as C05-R2: key covers value and layout, failed parses are not stored, the current-year fix-up is inside the memoised function so hits and misses agree); (R1) argument roles: the first value popped by strptime is the layout and the second the value, and they reach time.Parse / time.ParseInLocation in the (layout, value) positions, the location variant being selected by `v.loc != nil` and passing v.loc; the zero-year replacement is guarded by the syslog option; (R2) the time register is written only by the strptime and settime instructions, settime stores time.Unix(n, 0), timestamp() pushes the register unless it is zero, else time.Now(); (R3) every datum update in the VM passes the time register as its timestamp and the datum layer substitutes time.Now() only for the zero time. What time.Parse returns and wall-clock values are not decided."
+	c.Explain = "Decides structural necessary conditions of C07 on the VM: (R0) the strptime memo is transparent (same rule as C05-R2: key covers value and layout, failed parses are not stored, the current-year fix-up is inside the memoised function so hits and misses agree); (R1) argument roles: the first value popped by strptime is the layout and the second the value, and they reach time.Parse / time.ParseInLocation in the (layout, value) positions, the location variant being reached only when v.loc is known to be non-nil and passing v.loc; the zero-year replacement is reached only when the parsed year is zero and the syslog option is on; (R2) the time register is written only by the strptime and settime instructions, settime stores time.Unix(n, 0), timestamp() pushes the register unless it is zero, else time.Now(); (R3) every datum update in the VM passes the time register as its timestamp and the datum layer substitutes time.Now() only for the zero time. Conditions are read through their control-flow meaning, not their spelling (either operand order, negation with swapped branches, early return, nesting, locals and helper functions are the same to the rules). What time.Parse returns and wall-clock values are not decided."
 	c.Assume = append(c.Assume, "time.Parse/ParseInLocation semantics", "the checker requires strptime's layout to be a string literal")
 	c05memo(c, "C07-R0")
 	vm := extractVM(c)
@@ -21,15 +61,12 @@ func c07(c *core.Check) {
 	}
 	info := exe.Info()
 
-	c.Rule("C07-R1", "ROLES: in the Strptime case ParseTime is called with (first popped string, second popped string); ParseTime passes its (layout, value) parameters in that order to time.Parse and to time.ParseInLocation with v.loc, chosen by `v.loc != nil`; the year fix-up is inside ParseTime under `tm.Year() == 0 && v.syslogUseCurrentYear`")
+	c.Rule("C07-R1", "ROLES: in the Strptime case ParseTime is called with (first popped string, second popped string); ParseTime passes its (first, second) parameters in that order to time.Parse and to time.ParseInLocation with v.loc; ParseInLocation is reached only over an edge on which v.loc is known to be non-nil and Parse only over one on which it is nil; the year fix-up AddDate(<now>.Year(), 0, 0) is made by ParseTime (or a function it calls) and reached only where the parsed year is known to be zero and v.syslogUseCurrentYear to be set")
 	sc := vm.Cases["Strptime"]
 	if sc == nil || len(sc.Pops) < 2 {
 		c.Undecided("C07-R1", "Strptime case", "-", "case not found or has fewer than two pops")
 	} else {
 		layoutVar := sc.Pops[0].Var
-		// the value variable: assigned from the type-switch binding in `case string:`
-		var valueVar = func() interface{} { return nil }
-		_ = valueVar
 		var ptCall *ast.CallExpr
 		vm.inspectCase(sc, func(n ast.Node) bool {
 			if call, ok := n.(*ast.CallExpr); ok && exe.CalleeID(call) == vmParseTime {
@@ -45,11 +82,52 @@ func c07(c *core.Check) {
 			// the ts variable must be assigned from the second pop's string form
 			tsObj := identObj(info, ptCall.Args[1])
 			okVal := false
+			// the value is bound in the `case string:` clause of a type switch on the second pop:
+			// `switch s := <second pop>.(type) { case string: ts = s … }`
 			vm.inspectCase(sc, func(n ast.Node) bool {
-				if as, ok := n.(*ast.AssignStmt); ok && len(as.Lhs) == 1 && identObj(info, as.Lhs[0]) == tsObj && tsObj != nil {
-					// inside `case string:` of the type switch on the second pop
-					if inCase(exe, as, "string") {
-						okVal = true
+				sw, ok := n.(*ast.TypeSwitchStmt)
+				if !ok || tsObj == nil {
+					return true
+				}
+				var subject ast.Expr
+				switch g := sw.Assign.(type) {
+				case *ast.AssignStmt:
+					if len(g.Rhs) == 1 {
+						if ta, ok := core.Unparen(g.Rhs[0]).(*ast.TypeAssertExpr); ok {
+							subject = ta.X
+						}
+					}
+				case *ast.ExprStmt:
+					if ta, ok := core.Unparen(g.X).(*ast.TypeAssertExpr); ok {
+						subject = ta.X
+					}
+				}
+				second := sc.Pops[1]
+				onSecond := subject != nil && (core.Unparen(subject) == ast.Expr(second.Call) || (second.Var != nil && identObj(info, subject) == second.Var))
+				if !onSecond {
+					return true
+				}
+				for _, cl := range sw.Body.List {
+					cc := cl.(*ast.CaseClause)
+					isString := false
+					for _, te := range cc.List {
+						if t := info.TypeOf(te); t != nil && t.String() == "string" {
+							isString = true
+						}
+					}
+					if !isString || len(cc.List) != 1 {
+						continue
+					}
+					bound := info.Implicits[cc]
+					for _, st := range cc.Body {
+						if as, ok := st.(*ast.AssignStmt); ok && len(as.Lhs) == 1 && len(as.Rhs) == 1 && identObj(info, as.Lhs[0]) == tsObj {
+							r := core.Unparen(as.Rhs[0])
+							if id, isID := r.(*ast.Ident); isID && bound != nil && info.Uses[id] == bound {
+								okVal = true
+							} else if ta, isTA := r.(*ast.TypeAssertExpr); isTA && second.Var != nil && identObj(info, ta.X) == second.Var {
+								okVal = true // `switch v.(type) { case string: ts = v.(string) }`
+							}
+						}
 					}
 				}
 				return true
@@ -59,7 +137,21 @@ func c07(c *core.Check) {
 	}
 	{
 		g := pt.Graph()
-		lay, val := paramObj(pt, "layout"), paramObj(pt, "value")
+		pinfo := pt.Info()
+		// roles by position: ParseTime(layout, value), as the Strptime case calls it
+		lay, val := nthParam(pt, 0), nthParam(pt, 1)
+		if lay == nil || val == nil {
+			c.Undecided("C07-R1", "ParseTime parameters", pos(c, pt.Decl), "ParseTime does not have two named parameters")
+		}
+		locFacts := graphFacts(g, func(e ast.Expr) (condFact, bool) {
+			if x, nonNilWhenTrue, ok := nilTest(pinfo, e); ok && fieldOfType(pt, x, "vm.VM", "loc") {
+				if nonNilWhenTrue {
+					return condFact{"loc set", "true", true}, true
+				}
+				return condFact{"loc set", "false", true}, true
+			}
+			return condFact{}, false
+		})
 		for _, want := range []string{"time.Parse", "time.ParseInLocation"} {
 			hs := g.CallsTo(want)
 			if len(hs) != 1 {
@@ -67,110 +159,210 @@ func c07(c *core.Check) {
 				continue
 			}
 			call := hs[0].N.(*ast.CallExpr)
-			okArgs := identObj(pt.Info(), call.Args[0]) == lay && identObj(pt.Info(), call.Args[1]) == val && lay != nil && val != nil
+			okArgs := lay != nil && val != nil && identObj(pinfo, call.Args[0]) == lay && identObj(pinfo, call.Args[1]) == val
+			why := "the parse call does not receive (layout, value) in that order: timestamps are parsed with swapped roles"
 			if want == "time.ParseInLocation" {
-				okArgs = okArgs && len(call.Args) == 3 && strings.HasSuffix(core.PathOf(call.Args[2]), ".loc")
-				guard := false
-				for _, ic := range pt.EnclosingIfs(call.Pos()) {
-					cond := strings.ReplaceAll(exprStr(ic.If.Cond), " ", "")
-					if (strings.HasSuffix(cond, ".loc!=nil") && ic.InThen) || (strings.HasSuffix(cond, ".loc==nil") && !ic.InThen) {
-						guard = true
-					}
+				if okArgs && !(len(call.Args) == 3 && fieldOfType(pt, call.Args[2], "vm.VM", "loc")) {
+					okArgs, why = false, "ParseInLocation is not given the VM's configured location v.loc: timestamps are parsed in the wrong zone"
 				}
-				okArgs = okArgs && guard
+				if tr, unguarded := reachableAvoiding(g, locFacts, hs[0].P, factIs("loc set", "true")); okArgs && unguarded {
+					c.Fail("C07-R1", "ParseTime -> "+want, pos(c, call), "ParseInLocation is reached on a path where v.loc has not been found non-nil: the zone-aware parse is not chosen by the v.loc test", tr...)
+					continue
+				}
 			} else {
-				guard := false
-				for _, ic := range pt.EnclosingIfs(call.Pos()) {
-					cond := strings.ReplaceAll(exprStr(ic.If.Cond), " ", "")
-					if (strings.HasSuffix(cond, ".loc!=nil") && !ic.InThen) || (strings.HasSuffix(cond, ".loc==nil") && ic.InThen) {
-						guard = true
-					}
+				if tr, unguarded := reachableAvoiding(g, locFacts, hs[0].P, factIs("loc set", "false")); okArgs && unguarded {
+					c.Fail("C07-R1", "ParseTime -> "+want, pos(c, call), "time.Parse (UTC) is reached on a path where v.loc has not been found nil: a configured time zone is ignored", tr...)
+					continue
 				}
-				okArgs = okArgs && guard
 			}
-			c.Verdict(okArgs, "C07-R1", "ParseTime -> "+want, pos(c, call), "(layout, value) in order, zone variant chosen by v.loc", "the parse call does not receive (layout, value[, v.loc]) in that order under the v.loc test: timestamps are parsed with swapped roles or in the wrong zone")
+			c.Verdict(okArgs, "C07-R1", "ParseTime -> "+want, pos(c, call), "(layout, value) in order, zone variant chosen by v.loc", why)
 		}
-		yearIfs := ifsWhere(pt, func(is *ast.IfStmt) bool {
-			s := strings.ReplaceAll(exprStr(is.Cond), " ", "")
-			return strings.Contains(s, ".Year()==0") && strings.Contains(s, ".syslogUseCurrentYear") && strings.Contains(s, "&&")
-		})
-		okYear := len(yearIfs) == 1
+		// the zero-year fix-up: inside the memoised function (ParseTime or a function it calls)
+		type site struct {
+			f *core.Func
+			h core.Hit
+		}
+		var fix []site
+		for _, hf := range closureAvoiding(pt, vmErrorf) {
+			if hf.Pkg != pt.Pkg {
+				continue
+			}
+			for _, h := range hf.Graph().CallsTo("time.Time.AddDate") {
+				fix = append(fix, site{hf, h})
+			}
+		}
+		okYear, whyYear := len(fix) == 1, fmt.Sprintf("%d AddDate calls found in ParseTime and the functions it calls, expected 1", len(fix))
+		var trYear []string
 		if okYear {
-			okYear = false
-			ast.Inspect(yearIfs[0].Body, func(n ast.Node) bool {
-				if call, ok := n.(*ast.CallExpr); ok && pt.CalleeID(call) == "time.Time.AddDate" {
-					if strings.Contains(exprStr(call.Args[0]), ".Year()") && exprStr(call.Args[1]) == "0" && exprStr(call.Args[2]) == "0" {
-						okYear = true
+			hf, h := fix[0].f, fix[0].h
+			c.Analysed(hf)
+			call := h.N.(*ast.CallExpr)
+			hinfo := hf.Info()
+			_, yearOfNow := callOn(hf, call.Args[0], "time.Time.Year")
+			z1, c1 := constInt(hinfo, call.Args[1])
+			z2, c2 := constInt(hinfo, call.Args[2])
+			if !(len(call.Args) == 3 && yearOfNow && c1 && c2 && z1 == 0 && z2 == 0) {
+				okYear, whyYear = false, "the fix-up is not AddDate(<now>.Year(), 0, 0)"
+			} else {
+				ef := graphFacts(hf.Graph(), func(e ast.Expr) (condFact, bool) {
+					if fieldOfType(hf, e, "vm.VM", "syslogUseCurrentYear") {
+						return condFact{"option", "true", true}, true
 					}
+					if b, ok := core.Unparen(e).(*ast.BinaryExpr); ok && (b.Op == token.EQL || b.Op == token.NEQ) {
+						for _, p := range [][2]ast.Expr{{b.X, b.Y}, {b.Y, b.X}} {
+							if _, isYear := callOn(hf, p[0], "time.Time.Year"); isYear {
+								if n, isC := constInt(hinfo, p[1]); isC && n == 0 {
+									if b.Op == token.EQL {
+										return condFact{"year zero", "true", true}, true
+									}
+									return condFact{"year zero", "false", true}, true
+								}
+							}
+						}
+					}
+					return condFact{}, false
+				})
+				if tr, un := reachableAvoiding(hf.Graph(), ef, h.P, factIs("year zero", "true")); un {
+					okYear, whyYear, trYear = false, "the current year is added on a path where the parsed year has not been found to be zero", tr
+				} else if tr, un := reachableAvoiding(hf.Graph(), ef, h.P, factIs("option", "true")); un {
+					okYear, whyYear, trYear = false, "the current year is added on a path where v.syslogUseCurrentYear has not been found set", tr
 				}
-				return true
-			})
+			}
 		}
-		c.Verdict(okYear, "C07-R1", "ParseTime zero-year fix-up", pos(c, pt.Decl), "AddDate(now.Year(),0,0) under tm.Year()==0 && option", "the current-year replacement is not applied inside ParseTime exactly when the parsed year is zero and the option is on (moved outside the memoised function, it is skipped on memo hits)")
+		c.Verdict(okYear, "C07-R1", "ParseTime zero-year fix-up", pos(c, pt.Decl), "AddDate(now.Year(),0,0) only where the year is zero and the option is on, inside the memoised function", "the current-year replacement is not applied inside ParseTime exactly when the parsed year is zero and the option is on ("+whyYear+"; moved outside the memoised function, it is skipped on memo hits)", trYear...)
 		// errors are reported and lead to return
 		errs := g.CallsTo(vmErrorf)
 		c.Verdict(len(errs) >= 1, "C07-R1", "ParseTime reports failure", pos(c, pt.Decl), "errorf on parse failure", "a failed time parse is not reported as a runtime error")
 	}
 	c.Floor("C07-R1", 6)
 
-	c.Rule("C07-R2", "REGISTER: thread.time is assigned only in the Strptime and Settime cases of execute; Settime assigns time.Unix(n, 0) (optionally .UTC()) with n the popped integer; Timestamp pushes t.time.Unix() unless t.time.IsZero(), then time.Now().Unix()")
+	c.Rule("C07-R2", "REGISTER: thread.time is assigned only in the Strptime and Settime cases of execute (or helper functions those cases hand the thread to); Settime assigns time.Unix(n, 0) (optionally .UTC()) with n the popped integer; Timestamp pushes <thread>.time.Unix() only where the register is known not to be zero and time.Now().Unix() only where it is known to be zero")
+	// nodes belonging to the two cases, helper bodies included
+	inCases := map[ast.Node]string{}
+	for _, op := range []string{"Strptime", "Settime"} {
+		if vc := vm.Cases[op]; vc != nil {
+			op := op
+			vm.inspectCase(vc, func(n ast.Node) bool {
+				if _, ok := n.(*ast.AssignStmt); ok {
+					inCases[n] = op
+				}
+				return true
+			})
+		}
+	}
 	nreg := 0
 	for _, sf := range shipped(c) {
-		if core.Rel(sf.Pkg.PkgPath) != "internal/runtime/vm" {
+		if core.Rel(sf.Pkg.PkgPath) != "internal/runtime/vm" || sf.Lit != nil {
 			continue
 		}
+		sf := sf
 		ast.Inspect(sf.Body, func(n ast.Node) bool {
 			as, ok := n.(*ast.AssignStmt)
 			if !ok {
 				return true
 			}
-			for _, l := range as.Lhs {
-				sel, ok := core.Unparen(l).(*ast.SelectorExpr)
-				if !ok || sel.Sel.Name != "time" {
-					continue
-				}
-				s := sf.Info().Selections[sel]
-				if s == nil || !strings.HasSuffix(s.Recv().String(), "vm.thread") {
+			for k, l := range as.Lhs {
+				if !isFieldOf(sf.Info(), l, "vm.thread", "time") {
 					continue
 				}
 				nreg++
-				okSite := sf.Key == vmExecute && (inCase(sf, as, "code.Strptime") || inCase(sf, as, "code.Settime"))
+				op, okSite := inCases[as]
 				c.Verdict(okSite, "C07-R2", fmt.Sprintf("time register write #%d in %s", nreg, sf.Key), pos(c, as), "strptime/settime only", "the time register is written outside the strptime and settime instructions")
-				if sf.Key == vmExecute && inCase(sf, as, "code.Settime") {
-					r := strings.ReplaceAll(exprStr(as.Rhs[0]), " ", "")
-					okv := strings.HasPrefix(r, "time.Unix(") && (strings.HasSuffix(r, ",0)") || strings.HasSuffix(r, ",0).UTC()"))
-					c.Verdict(okv, "C07-R2", "Settime value", pos(c, as), "time.Unix(n, 0)", "settime does not store time.Unix(n, 0): "+r)
+				if op == "Settime" && len(as.Lhs) == len(as.Rhs) {
+					hf := funcContaining(c, as)
+					if hf == nil {
+						hf = sf
+					}
+					rhs := throughLocals(hf, as.Rhs[k])
+					// strip .UTC()
+					if u, isUTC := callOn(hf, rhs, "time.Time.UTC"); isUTC {
+						rhs = throughLocals(hf, core.RecvExpr(u))
+					}
+					okv, whyv := false, "the stored value is not built by time.Unix"
+					if u, isUnix := callOn(hf, rhs, "time.Unix"); isUnix && len(u.Args) == 2 {
+						nsec, isC := constInt(hf.Info(), u.Args[1])
+						var popVar types.Object
+						if vc := vm.Cases["Settime"]; vc != nil && len(vc.Pops) == 1 && vc.Pops[0].Kind == "PopInt" {
+							popVar = vc.Pops[0].Var
+						}
+						switch {
+						case !isC || nsec != 0:
+							whyv = "the nanosecond argument of time.Unix is not 0"
+						case popVar == nil || identObj(hf.Info(), u.Args[0]) != popVar:
+							whyv = "the seconds argument of time.Unix is not the integer popped by the instruction"
+						default:
+							okv = true
+						}
+					}
+					c.Verdict(okv, "C07-R2", "Settime value", pos(c, as), "time.Unix(n, 0)", "settime does not store time.Unix(n, 0): "+whyv+" ("+exprStr(as.Rhs[k])+")")
 				}
 			}
 			return true
 		})
 	}
 	if tc := vm.Cases["Timestamp"]; tc != nil {
-		var zeroIf *ast.IfStmt
+		// classify every push of the case
+		type push struct {
+			f    *core.Func
+			call *ast.CallExpr
+			kind string
+		}
+		var pushes []push
 		vm.inspectCase(tc, func(n ast.Node) bool {
-			if is, ok := n.(*ast.IfStmt); ok && strings.HasSuffix(strings.ReplaceAll(exprStr(is.Cond), " ", ""), ".time.IsZero()") && !strings.HasPrefix(exprStr(is.Cond), "!") {
-				zeroIf = is
+			call, ok := n.(*ast.CallExpr)
+			if !ok || exe.CalleeID(call) != "internal/runtime/vm.(*thread).Push" || len(call.Args) != 1 {
+				return true
 			}
+			hf := funcContaining(c, call)
+			if hf == nil {
+				return true
+			}
+			kind := "other"
+			if u, isUnix := callOn(hf, call.Args[0], "time.Time.Unix"); isUnix {
+				recv := core.RecvExpr(u)
+				if _, isNow := callOn(hf, recv, "time.Now"); isNow {
+					kind = "now"
+				} else if fieldOfType(hf, recv, "vm.thread", "time") {
+					kind = "register"
+				}
+			}
+			pushes = append(pushes, push{hf, call, kind})
 			return true
 		})
-		okT := false
-		if zeroIf != nil && zeroIf.Else != nil {
-			thenS, elseS := "", ""
-			ast.Inspect(zeroIf.Body, func(n ast.Node) bool {
-				if call, ok := n.(*ast.CallExpr); ok && strings.HasSuffix(exe.CalleeID(call), ".Push") {
-					thenS = strings.ReplaceAll(exprStr(call.Args[0]), " ", "")
+		okT, whyT := true, ""
+		var trT []string
+		seen := map[string]int{}
+		for _, p := range pushes {
+			seen[p.kind]++
+			g := p.f.Graph()
+			ef := graphFacts(g, func(e ast.Expr) (condFact, bool) {
+				if z, ok := core.Unparen(e).(*ast.CallExpr); ok && p.f.CalleeID(z) == "time.Time.IsZero" && fieldOfType(p.f, core.RecvExpr(z), "vm.thread", "time") {
+					return condFact{"register zero", "true", true}, true
 				}
-				return true
+				return condFact{}, false
 			})
-			ast.Inspect(zeroIf.Else, func(n ast.Node) bool {
-				if call, ok := n.(*ast.CallExpr); ok && strings.HasSuffix(exe.CalleeID(call), ".Push") {
-					elseS = strings.ReplaceAll(exprStr(call.Args[0]), " ", "")
+			pp, found := g.PointOf(p.call)
+			if !found {
+				okT, whyT = false, "a push of the case is not in the control-flow graph"
+				continue
+			}
+			switch p.kind {
+			case "now":
+				if tr, un := reachableAvoiding(g, ef, pp, factIs("register zero", "true")); un {
+					okT, whyT, trT = false, "the wall clock is pushed on a path where the time register has not been found zero: an instant set by strptime/settime is ignored", tr
 				}
-				return true
-			})
-			okT = thenS == "time.Now().Unix()" && strings.HasSuffix(elseS, ".time.Unix()")
+			case "register":
+				if tr, un := reachableAvoiding(g, ef, pp, factIs("register zero", "false")); un {
+					okT, whyT, trT = false, "the time register is pushed on a path where it has not been found non-zero: an unset register yields year 1 instead of the current time", tr
+				}
+			default:
+				okT, whyT = false, "timestamp pushes something that is neither <thread>.time.Unix() nor time.Now().Unix(): "+exprStr(p.call.Args[0])
+			}
 		}
-		c.Verdict(okT, "C07-R2", "Timestamp", pos(c, exe.Decl), "register unless zero, else now", "timestamp() does not push the time register's Unix time when it is set and the wall clock otherwise")
+		if okT && (seen["now"] == 0 || seen["register"] == 0) {
+			okT, whyT = false, fmt.Sprintf("expected a push of the register and a push of the wall clock, found %d and %d", seen["register"], seen["now"])
+		}
+		c.Verdict(okT, "C07-R2", "Timestamp", pos(c, exe.Decl), "register unless zero, else now", "timestamp() does not push the time register's Unix time when it is set and the wall clock otherwise ("+whyT+")", trT...)
 	} else {
 		c.Undecided("C07-R2", "Timestamp", "-", "case not found")
 	}
@@ -180,45 +372,90 @@ func c07(c *core.Check) {
 	}
 	c.Floor("C07-R2", 8)
 
-	c.Rule("C07-R3", "STAMP: every datum update call in execute (datum.SetInt/SetFloat/SetString/IncIntBy/DecIntBy) passes t.time as its timestamp; BaseDatum.stamp stores time.Now() exactly when the given time IsZero")
+	c.Rule("C07-R3", "STAMP: every datum update call made by execute and the vm functions it calls (datum.SetInt/SetFloat/SetString/IncIntBy/DecIntBy) passes the field `time` of the thread as its timestamp; BaseDatum.stamp stores a time.Now() value only where its argument is known to be zero and the argument only where it is known not to be")
 	nst := 0
-	ast.Inspect(exe.Body, func(n ast.Node) bool {
-		call, ok := n.(*ast.CallExpr)
-		if !ok {
-			return true
+	for _, hf := range closureAvoiding(exe, vmErrorf) {
+		if hf.Pkg != exe.Pkg {
+			continue
 		}
-		id := exe.CalleeID(call)
-		switch id {
-		case "internal/metrics/datum.SetInt", "internal/metrics/datum.SetFloat", "internal/metrics/datum.SetString", "internal/metrics/datum.IncIntBy", "internal/metrics/datum.DecIntBy":
-			nst++
-			last := call.Args[len(call.Args)-1]
-			c.Verdict(core.PathOf(last) == "t.time", "C07-R3", fmt.Sprintf("%s #%d", id[strings.LastIndex(id, ".")+1:], nst), pos(c, call), "stamped with the time register", "a datum update is not stamped with the time register ("+exprStr(last)+"): the datum does not carry the instant set by strptime/settime")
-		}
-		return true
-	})
-	if sf := c.MustFn("C07-R3", "internal/metrics/datum.(*BaseDatum).stamp"); sf != nil {
-		okS := false
-		for _, is := range ifsWhere(sf, func(is *ast.IfStmt) bool {
-			return strings.HasSuffix(strings.ReplaceAll(exprStr(is.Cond), " ", ""), ".IsZero()") && !strings.HasPrefix(exprStr(is.Cond), "!")
-		}) {
-			thenNow, elseGiven := false, false
-			ast.Inspect(is.Body, func(n ast.Node) bool {
-				if call, ok := n.(*ast.CallExpr); ok && sf.CalleeID(call) == "time.Now" {
-					thenNow = true
-				}
+		hf := hf
+		ast.Inspect(hf.Body, func(n ast.Node) bool {
+			call, ok := n.(*ast.CallExpr)
+			if !ok {
 				return true
-			})
-			if is.Else != nil {
-				ast.Inspect(is.Else, func(n ast.Node) bool {
-					if id, ok := n.(*ast.Ident); ok && sf.Info().Uses[id] == paramObj(sf, sf.Type.Params.List[0].Names[0].Name) {
-						elseGiven = true
-					}
-					return true
-				})
 			}
-			okS = thenNow && elseGiven
+			id := hf.CalleeID(call)
+			switch id {
+			case "internal/metrics/datum.SetInt", "internal/metrics/datum.SetFloat", "internal/metrics/datum.SetString", "internal/metrics/datum.IncIntBy", "internal/metrics/datum.DecIntBy":
+				nst++
+				last := call.Args[len(call.Args)-1]
+				lf := funcContaining(c, call)
+				if lf == nil {
+					lf = hf
+				}
+				c.Verdict(fieldOfType(lf, last, "vm.thread", "time"), "C07-R3", fmt.Sprintf("%s #%d", id[strings.LastIndex(id, ".")+1:], nst), pos(c, call), "stamped with the time register", "a datum update is not stamped with the time register ("+exprStr(last)+"): the datum does not carry the instant set by strptime/settime")
+			}
+			return true
+		})
+	}
+	if sf := c.MustFn("C07-R3", "internal/metrics/datum.(*BaseDatum).stamp"); sf != nil {
+		g := sf.Graph()
+		sinfo := sf.Info()
+		given := nthParam(sf, 0)
+		ef := graphFacts(g, func(e ast.Expr) (condFact, bool) {
+			if z, ok := core.Unparen(e).(*ast.CallExpr); ok && sf.CalleeID(z) == "time.Time.IsZero" && given != nil && identObj(sinfo, throughLocals(sf, core.RecvExpr(z))) == given {
+				return condFact{"given zero", "true", true}, true
+			}
+			return condFact{}, false
+		})
+		// stores into the datum's Time field: atomic.StoreInt64(&d.Time, x) or d.Time = x
+		type store struct {
+			h   core.Hit
+			val ast.Expr
 		}
-		c.Verdict(okS, "C07-R3", "BaseDatum.stamp", pos(c, sf.Decl), "now iff zero", "the datum layer does not substitute the current time exactly for the zero (unset) time")
+		var stores []store
+		for _, h := range g.Find(func(n ast.Node) bool {
+			switch x := n.(type) {
+			case *ast.CallExpr:
+				return sf.CalleeID(x) == "sync/atomic.StoreInt64" && len(x.Args) == 2
+			case *ast.AssignStmt:
+				return len(x.Lhs) == 1 && len(x.Rhs) == 1 && isFieldOf(sinfo, x.Lhs[0], "datum.BaseDatum", "Time")
+			}
+			return false
+		}) {
+			switch x := h.N.(type) {
+			case *ast.CallExpr:
+				stores = append(stores, store{h, x.Args[1]})
+			case *ast.AssignStmt:
+				stores = append(stores, store{h, x.Rhs[0]})
+			}
+		}
+		okS, whyS := true, ""
+		var trS []string
+		nNow, nGiven := 0, 0
+		for _, s := range stores {
+			v := throughLocals(sf, s.val)
+			usesNow := exprCalls(sf, v, "time.Now")
+			usesGiven := given != nil && exprUses(sinfo, v, given)
+			switch {
+			case usesNow && !usesGiven:
+				nNow++
+				if tr, un := reachableAvoiding(g, ef, s.h.P, factIs("given zero", "true")); un {
+					okS, whyS, trS = false, "the current time is stored on a path where the given time has not been found zero: the instant set by strptime/settime is overwritten by the wall clock", tr
+				}
+			case usesGiven && !usesNow:
+				nGiven++
+				if tr, un := reachableAvoiding(g, ef, s.h.P, factIs("given zero", "false")); un {
+					okS, whyS, trS = false, "the given time is stored on a path where it has not been found non-zero: an unset time register stamps the datum with year 1 instead of the current time", tr
+				}
+			default:
+				okS, whyS = false, "a store of the timestamp is neither the current time nor the given time: "+exprStr(s.val)
+			}
+		}
+		if okS && (nNow == 0 || nGiven == 0) {
+			okS, whyS = false, fmt.Sprintf("expected a store of the current time and a store of the given time, found %d and %d", nNow, nGiven)
+		}
+		c.Verdict(okS, "C07-R3", "BaseDatum.stamp", pos(c, sf.Decl), "now iff zero", "the datum layer does not substitute the current time exactly for the zero (unset) time ("+whyS+")", trS...)
 	}
 	c.Floor("C07-R3", 6)
 }
